@@ -322,7 +322,7 @@ void drive(const Plan &p, uint64_t salt, int exhaustive_level, size_t eps, bool 
             if (tiny_chunks_ok && a.size() >= 4 && wc % 2 == 0) run(VPlan{"exhaustive", a.size(), wc % 3, {"exhaustive", "forced_chunks"}, rng.next(), a, 2 + (wc / 2) % 2});
         });
     }
-    const std::vector<std::string> kinds = {"runs", "sawtooth", "collinear", "steps", "random"};
+    const std::vector<std::string> kinds = {"runs", "sawtooth", "collinear", "steps", "random", "convex", "curve_far_dense"};
     int reps = quick ? 1 : 4;
     // runs of duplicates that end at, start at or straddle the chunk boundaries of a forced chunked build
     // (chunks of at least 2 Epsilon + 6 elements: segments of different chunks stay apart in rank, as in the library)
